@@ -4,12 +4,14 @@ import common, fns, sweeps, crops
 from common import quiet
 
 PROP = 'C04'
-LEAN_MODULES = ['XyzProofs.Props.C04', 'XyzProofs.Refine.Batch']
+LEAN_MODULES = ['XyzProofs.Props.C04', 'XyzProofs.Refine.Batch', 'XyzProofs.Refine.Sow']
 THEOREMS = ['Crop.c04_batches_cover', 'Crop.opSow_fresh', 'Crop.c04_grow_correct', 'Crop.c04_stream_full', 'Crop.c04_reap_eq_direct', 'Crop.c04_grow_history',
             'Crop.c04_history_reap_eq_direct', 'Crop.c04_reload_irrelevant',
-            'Refine.chooseBatch_refines', 'Refine.sower_refines']
+            'Refine.chooseBatch_refines', 'Refine.sower_refines',
+            'Crop.runnerShuffle_eq_recorded', 'Refine.sowAttrs_combos_refines', 'Refine.sowAttrs_cases_refines']
 ANCHORS = ['nbFromBs', 'capNb', 'bsOfNb', 'remOfNb', 'sowerGetsExtra', 'sowerFlush', 'isReady', 'cleanUpDefault',
-           'chooseBatchSettings', 'sowerInit', 'sowerCall', 'sowerExit']
+           'chooseBatchSettings', 'sowerInit', 'sowerCall', 'sowerExit',
+           'sowCombosHead', 'sowCasesHead', 'sowCombosRunnerShuffle', 'sowCasesRunnerShuffle']
 RULE = ("histories: construct (batchsize | num_batches | neither; shuffle False/True/int) -> sow_combos / sow_cases "
         "(shuffle also at sow time) -> a random partition+permutation of the batch ids over Crop.grow, grow(), "
         "grow(num_workers=2), grow_missing, with repeats -> reap; fresh Crop(name, parent_dir) objects inserted at random "
@@ -43,6 +45,7 @@ def gen_history(rng, heavy=False, force=None):
     if not is_cases: sow['shuffle'] = sow_sh
     else: sow['spelling'] = rng.choice(['tuple', 'dict'])
     (new if at_ctor else sow).update(b)
+    if 'sow_shuffle' not in force: crops.vary_sow_call(rng, sow)
     ops = [new, sow]
     B = crops.num_batches_for(n, b)
     ids = list(range(1, B + 1))
